@@ -246,3 +246,59 @@ PROPS["C20"] = {
     "assumptions": [],
     "outside": "TreeSlot epoch reclamation, io_uring submissions, AlignedBuffer FFI, concurrency",
 }
+
+E2NOTE = "E2: functions are encoded from `cargo +nightly rustc -Zunpretty=mir` of /repo's working tree by lib/mir.py; references are identified with referents; struct fields / enum payloads are uninterpreted functions; calls outside the reviewed table return havocked values; the scc entry guard is trusted to serialise mutations of one key"
+OPS = "src/core/store/operations.rs"
+INTERNAL = "src/core/store/internal.rs"
+TTL = "src/core/store/ttl.rs"
+STOREMOD = "src/core/store/mod.rs"
+PERSIST = "src/core/store/persistence.rs"
+
+PROPS["C12"] = {
+    "engine_name": "E2-mir-smt",
+    "technique": "SMT (z3) over a bit-vector encoding of the MIR of VersionClock::next/observe with rely/guarantee interference steps, plus path-condition entailment at the TTL-update site",
+    "level_text": "z3-decided over all u64 values, for any number of concurrent threads (rely: the shard never decreases; guarantee re-proved for the functions' own writes) and up to 3 (quick) / 5 (thorough) CAS retries: next() returns max(wall, last+1), strictly above the shard value it replaced unless that was u64::MAX, and leaves the shard there; observe() never lowers the shard, ends >= ts and ignores u64::MAX; hence successive versions on a shard strictly increase and exceed every observed timestamp (composition lemma). resolve_timestamp flags exactly the caller-supplied non-zero timestamps as explicit; observe_published_timestamp folds in exactly the explicit ones; update_ttl's guarded closure draws the new generation's timestamp from the clock.",
+    "level_note": E2NOTE + ". Not decided: that two writers of one key hash to the same shard (ahash, trusted), wall-clock behaviour, what reaches the disk, recovery's observe calls (scan loop).",
+    "functions": [STOREMOD + "::next", STOREMOD + "::observe", OPS + "::resolve_timestamp", OPS + "::observe_published_timestamp", OPS + "::get_timestamp", TTL + "::update_ttl"],
+    "smt": "c12",
+    "bounds": "CAS retries <= 3 quick / 5 thorough (paths needing more are counted as truncated, not as passes); all u64 inputs; any number of interfering threads",
+    "stubs": ["atomic shard: rely/guarantee model with an arbitrary monotone environment step before every atomic operation; compare_exchange_weak may fail spuriously"],
+    "assumptions": ["all accesses to a clock shard go through next/observe (checked: they are the only functions touching VersionClock.shards)"],
+    "outside": "more CAS retries than the bound; shard selection (ahash); wall clock; persistence/recovery of timestamps",
+}
+
+PROPS["C13"] = {
+    "engine_name": "E2-mir-smt",
+    "technique": "SMT (z3) over the MIR of reserve_memory / MemoryReservation / release_memory with rely/guarantee interference, and path-condition entailment of the accounting deltas at the replace/delete sites; one Kani harness for the size formula",
+    "level_text": "z3-decided for all usize amounts/limits and any number of threads (rely: other threads' successful reservations keep usage <= max(old,limit), releases only lower it), <= 3/5 CAS retries: an admitted reservation linearises with usage' = usage + amount <= limit (no overflow); a refused one wrote nothing; without a limit exactly one fetch_add; drop gives back exactly the uncommitted amount. At every path of update_record_with_ttl(_bytes) that replaces the entry: reserved = saturating(new - size(CURRENT entry under the guard)), released = size(CURRENT) - new when shrinking, reservation committed after publication, and no accounting effect on paths that publish nothing; delete subtracts exactly size(current) and one record.",
+    "level_note": E2NOTE + ". Whole-run equality of memory_usage() with the sum over live keys, recovery's rebuild of the counters and the sweeper's decrements are not decided.",
+    "functions": [OPS + "::reserve_memory", OPS + "::release_memory", OPS + "::calculate_record_size", STOREMOD + "::commit", STOREMOD + "::drop",
+                  INTERNAL + "::update_record_with_ttl", INTERNAL + "::update_record_with_ttl_bytes", OPS + "::delete_with_timestamp", RECORD + "::calculate_size"],
+    "smt": "c13",
+    "kani": [H(RECORD, "c13_record_size_formula", "Record::calculate_size = size_of::<Record>() + key capacity + value_len", "all value lengths")],
+    "bounds": "CAS retries <= 3/5; every MIR path of the site functions with loops unrolled twice",
+    "stubs": ["memory_usage atomic: rely/guarantee model", "calls other than the reviewed pure ones are havocked (fresh result, logged as events)"],
+    "assumptions": ["key.capacity() == key.len() for stored keys (all come from to_vec/clone)"],
+    "outside": "insert (vacant) path sizes, atomic_increment/CAS/json_patch sites, TTL sweeper, recovery",
+}
+
+PROPS["C11"] = {
+    "engine_name": "E2-mir-smt",
+    "technique": "SMT (z3) over MIR: expiry arithmetic, guard entailment at the lazy-expiry removal site, trace obligations of the TTL-update closure; Kani round-trip of the on-disk expiry field",
+    "level_text": "z3-decided for all u64 inputs: the absolute expiry handed to the insert path is 0 iff no TTL, else min(u64::MAX, ts + ttl*10^9) (both steps saturating), with the resolved (timestamp, explicit) pair passed through; retire_expired_if_current removes an entry only under its guard when it is pointer-identical to the generation the caller saw and 0 < expiry < now, un-counting exactly size(current); a successful TTL update republishes the ordered-index slot with the new generation (so range queries judge expiry by the new generation). CBMC-decided: the expiry field round-trips bit-exactly through serialize/parse.",
+    "level_note": E2NOTE + ". Wall-clock reads, sweeper/renewal races as executions, recovery's expired-winner handling (scan loop) and deferred-value rewrites on disk are not decided.",
+    "functions": [OPS + "::insert_bytes_with_timestamp_and_ttl_internal", INTERNAL + "::retire_expired_if_current", TTL + "::update_ttl", FMT + "::parse_record"],
+    "smt": "c11",
+    "kani": [H(FMT, "c10_roundtrip_v2", "expiry (and all header fields) survive serialize -> parse bit-exactly", "3-byte key, all u64 expiries")],
+    "bounds": "all u64 values; every MIR path, loops unrolled twice",
+    "stubs": [LOCKS],
+    "assumptions": [],
+    "outside": "time, sweeper interleavings, recovery, insert_with_ttl's non-Bytes twin (same expression, not separately encoded)",
+}
+
+PROPS["C08"]["smt"] = "c08"
+PROPS["C08"]["engine_name"] = "E1-kani + E2-mir-smt"
+PROPS["C08"]["technique"] = "bounded model checking (Kani/CBMC) of the post-read identity check and the extent word; SMT (z3) over MIR for acquire_extent under interference and for pinned-record == read-record identity in the two disk-read paths"
+PROPS["C08"]["level_text"] += " z3-decided over MIR: acquire_extent under interference (other threads acquire/release/retire, RETIRED never cleared) hands out a guard only from a CAS that linearises with RETIRED clear and adds exactly one reader; in load_value_from_disk and prepare_deferred_record_data, on every path, the record whose extent is pinned IS the record whose sector is loaded (after the pin) and against which the bytes are identity-checked – including TTL-only generations that borrow a predecessor's extent (value_source chain followed twice)."
+PROPS["C08"]["level_note"] += " " + E2NOTE
+PROPS["C08"]["functions"] += [PERSIST + "::load_value_from_disk", WB + "::prepare_deferred_record_data"]
